@@ -114,6 +114,7 @@ func (c *BaseClient) Connect(ctx context.Context, clientID string, opts ...Conne
 		}
 	}
 	c.init()
+	verifEvent("connectInit")
 	c.muConnecting.Lock()
 	defer c.muConnecting.Unlock()
 
